@@ -211,6 +211,12 @@ def run(pid, tier, seed):
         if tier == "quick" and len(insts) > 500:
             insts = rng.sample(insts, 500)
         conts = ["plain", "gz", "bz2", "xz", "lz4", "tar"]
+        # longer files than the model's bound, with null slots at the start, among the first records and later, ties and
+        # records out of time order (the prescribed emission is the same declarative sort)
+        for recs_ in ([2, 0, 1, 3, 2, 1, 3], [0, 1, 2, 3, 1], [1, 1, 0, 2, 2, 3, 0, 3], [3, 2, 0, 0, 1, 2, 3, 1, 2], [1, 0, 0, 0, 2, 3, 3, 1, 2, 0, 1]):
+            for (A_, B_) in ((0, 99), (2, 99), (0, 2)):
+                emit_ = [i + 1 for _, i in sorted((t, i) for i, t in enumerate(recs_) if t and (A_ == 0 or t >= A_) and (B_ == 99 or t <= B_))]
+                insts.append(("INST", list(recs_), A_, B_, emit_))
         cases = []
         for k, (_, recs, A, B, emit) in enumerate(insts):
             if not recs or all(t == 0 for t in recs):
